@@ -210,7 +210,7 @@ def run_property(prop, tier, a):
         ct = C.BY_NAME[t]
         if ct.assumed:
             spot = ''
-            if ct.search and ct.view != 'real':
+            if ct.search:
                 # an assumed leaf is not verified, but its contract is spot-checked natively on an enumerated domain
                 from pyvc import gens as _gens, bounded as _bounded
                 sr = _bounded.run_bounded(ct, _gens.GENS[ct.search](seed, tier), max_fail=1, budget_s=20)
